@@ -105,6 +105,11 @@ def gen(rng, tier):
         seq = "+".join(req("GET", "/n200") + req("POST", "/n201", body=(3, 7), pad=w) + req("PUT", "/n200", body=(0, 1), pad=w) + req("GET", "/n404"))
         cases.append("D 100 ok %s" % seq)
         cases.append("S 100 ok 0 0 %s" % seq)
+    # the server's permit is revoked while the handler of the request in flight is running (mode R, handler /w<ms> takes
+    # that long): the handler's response still reaches the client, complete
+    for ms in (300, 500):
+        cases.append("R 100 ok 0 0 %s" % "+".join(req("GET", "/w%d" % ms)))
+        cases.append("R 100 ok 0 0 %s" % "+".join(req("POST", "/w%d" % ms, body=(5, 3))))
     # responses whose body source fails after the head was sent: alone, after earlier answers, with pipelined followers
     # ... and whose file is LONGER than declared (/fl<k>): exactly the declared bytes go out, the connection carries on
     for beh in ("/fs0", "/fs3", "/fs9", "/fm", "/fs10", "/fl1", "/fl12", "/fl70000"):
